@@ -659,10 +659,9 @@ where
         // hit machine limits?
         if machine.max_padding_frac > 0.0 {
             let total = runtime.normal_sent + runtime.padding_sent;
-            if total == 0 {
-                return true;
-            }
-            if runtime.padding_sent as f64 / total as f64 >= machine.max_padding_frac {
+            if total > 0
+                && runtime.padding_sent as f64 / total as f64 >= machine.max_padding_frac
+            {
                 return false;
             }
         }
@@ -670,10 +669,9 @@ where
         // hit global limits?
         if self.max_padding_frac > 0.0 {
             let total = self.padding_sent_packets + self.normal_sent_packets;
-            if total == 0 {
-                return true;
-            }
-            if self.padding_sent_packets as f64 / total as f64 >= self.max_padding_frac {
+            if total > 0
+                && self.padding_sent_packets as f64 / total as f64 >= self.max_padding_frac
+            {
                 return false;
             }
         }
